@@ -192,6 +192,26 @@ def cleanup_lines(func):
 	return out
 
 
+def with_lines(func):
+	"""Lines of `with` statements.  The interpreter returns to the `with`
+	line on the normal exit path to call __exit__; those instructions are
+	outside the block's exception-table range, so an exception injected at
+	that LINE event would skip __exit__ (e.g. leave torch.no_grad() active
+	for the rest of the process) - a failure real code cannot have there.
+	The first line of the body and the line after the block are injected
+	instead."""
+	src = textwrap.dedent(inspect.getsource(func))
+	first = func.__code__.co_firstlineno
+	out = set()
+	for node in ast.walk(ast.parse(src)):
+		if isinstance(node, (ast.With, ast.AsyncWith)):
+			last = max(getattr(i.context_expr, "end_lineno", node.lineno)
+				for i in node.items)
+			for l in range(node.lineno, last + 1):
+				out.add(first + l - 1)
+	return out
+
+
 def unraisable_lines(func):
 	"""Lines whose first instruction is a NOP (e.g. a bare `try:`).  CPython
 	leaves that NOP outside every exception-table range because it cannot
@@ -253,8 +273,14 @@ class LineFailpoints:
 		self.active = False
 
 	def count(self, thunk):
+		"""-> executed (line, hit) points; the thunk may itself raise (an
+		operation that legitimately fails still has crash points before
+		its failure)."""
 		self.hits, self.trace, self.target, self.fired = {}, [], None, False
-		thunk()
+		try:
+			thunk()
+		except Exception as e:
+			self.count_error = e
 		return list(self.trace)
 
 	def inject(self, thunk, point, exc=Injected):
